@@ -10,6 +10,7 @@ CONSTANTS
   MaxAttack = 0
   AtkNames <- const_AtkNames
   AtkBodies <- const_AtkBodies
+  AtkKinds = {"rename", "exchange", "unlink", "symlink", "mkdir"}
   ChkAfterDotDot = TRUE
   ChkFinal = TRUE
   ClampDotDot = TRUE
